@@ -119,6 +119,16 @@ def run(ctx):
         texts = [G.print_type(p)[0] for p in g]
         rl.append(json.dumps({"schemas": [{"text": texts[0], "types": [[G.name(i), t] for i, t in enumerate(texts)]}], "docs": [], "enums": [], "regexes": [], "ops": [], "n": 300}))
     rl.append(json.dumps({"schemas": [{"text": "{\n  \"a\": @x,\n  \"b\": @y\n}", "types": [["@x", "1 // {min: 5}"], ["@y", "\"s\" // {minLength: 9}"]]}], "docs": [], "enums": [], "regexes": [], "ops": [], "n": 300}))
+    # user types that bring their own types (same name, different meaning, in two branches; a type two levels down); several defective allOf types
+    nested_cases = [
+        {"text": '{"a": @t1,\n"b": @t2}', "types": [], "nested": [["@t1", '{"p": @x}', [["@x", '"s"']]], ["@t2", '{"q": @x}', [["@x", "1"]]]]},
+        {"text": '{"a": @t1}', "types": [], "nested": [["@t1", '{"p": @y}', [["@y", '{"z": @z}', [["@z", "1"]]]]]]},
+        {"text": '{"a": @t1,\n"b": @t2,\n"c": @t3}', "types": [], "nested": [["@t1", '{"p": @x}', [["@x", '"s"']]], ["@t2", '{"q": @x}', [["@x", "1"]]], ["@t3", '{"r": @x}', [["@x", "true"]]]]},
+        {"text": '{"k": 1}', "types": [["@a", '{} // {allOf: "@x"}'], ["@b", '{} // {allOf: "@lit"}'], ["@c", '{} // {allOf: "@z"}'], ["@lit", "true"]]},
+        {"text": '{"k": @a | @b | @c}', "types": [["@a", '{ // {allOf: "@x"}\n}'], ["@b", '{ // {allOf: "@y"}\n}'], ["@c", '{ // {allOf: "@z"}\n}']]},
+    ]
+    for nc in nested_cases:
+        rl.append(json.dumps({"schemas": [nc], "docs": ['{"a":{"p":"s"},"b":{"q":1}}', '{"a":{"p":{"z":1}}}'], "enums": [], "regexes": [], "ops": [], "n": 500}))
     if os.path.isdir(cdir):
         for f in sorted(os.listdir(cdir)):
             for c in json.load(open(os.path.join(cdir, f))):
